@@ -61,14 +61,23 @@ def run(out, tier, seed):
         evs = random_history(rng, U3, names4, rng.randint(4, 15))
         evs = [e for e in evs if e["op"] not in ("remove",)] or evs
         kinds = rng.sample(KINDS, 16 if quick else 30)
-        jobs.append({"cfg": dict(S=U3[0], P=U3[1], O=U3[2], names=names4, facade="dataset", default_union=bool(i % 2), obs="marked", obs_kind="light",
+        jobs.append({"cfg": dict(S=U3[0], P=U3[1], O=U3[2], names=names4, facade="dataset", default_union=bool(i % 2), obs="marked", obs_kind="light", store=["Memory", "Delegating"][(i // 2) % 2],
                                  vocab=["plain", "bnodey", "typed", "hostile"][i % 4]), "events": with_reads(decorate(evs, i), kinds, names4, i)})
+    # datasets over a store that is not the in-memory store, queried with several FROM clauses
+    for i in range(60 if quick else 400):
+        evs = random_history(rng, U3, names4, rng.randint(6, 15))
+        evs = [e for e in evs if e["op"] not in ("remove", "remove_graph")] or evs
+        kinds = [k for k in KINDS if k[1] in ("q_from", "q_from2", "q_from3", "q_from_named", "q_select_g")] + rng.sample(KINDS, 6)
+        jobs.append({"cfg": dict(S=U3[0], P=U3[1], O=U3[2], names=names4, facade="dataset", default_union=bool(i % 2), obs="marked", obs_kind="light", store="Delegating",
+                                 vocab=["plain", "bnodey"][i % 2]), "events": with_reads(decorate(evs, i), kinds, names4, i)})
     # rdf:List structures whose cells are also typed rdf:List (a serialiser must not tidy the graph it writes)
     lq = [["s0", "p0", "s1"], ["s1", "p3", "o3"], ["s1", "p1", "o1"], ["s1", "p2", "s2"], ["s2", "p3", "o3"], ["s2", "p1", "o4"], ["s2", "p2", "o2"]]
-    for i, gs in enumerate((["D"], ["g1"], ["D", "g1"], ["b1"])):
+    plain_list = [t for t in lq if t[1] != "p3"]                          # the same list without the rdf:type rdf:List statements
+    open_list = plain_list[:-1]                                           # ... and without the closing rdf:rest rdf:nil
+    for i, (gs, body) in enumerate([(gs, b) for gs in (["D"], ["g1"], ["D", "g1"], ["b1"]) for b in (lq, plain_list, open_list)]):
         for du in (False, True):
-            kinds = [k for k in KINDS if k[0].startswith(("ser_", "query_"))]
-            evs = [{"op": "init", "made": [g for g in gs if g != "D"], "quads": [t + [g] for g in gs for t in (lq if g != "b1" else lq[:4] + lq[6:])]}]
+            kinds = [k for k in KINDS if k[0].startswith(("ser_", "query_")) or k[0] in ("collection", "items", "value")]
+            evs = [{"op": "init", "made": [g for g in gs if g != "D"], "quads": [t + [g] for g in gs for t in (body if g != "b1" or body is not lq else lq[:4] + lq[6:])]}]
             jobs.append({"cfg": dict(S=["s0", "s1", "s2"], P=["p0", "p1", "p2", "p3"], O=["o1", "o2", "o3", "o4", "s1", "s2"], names=names4, facade="dataset", default_union=du, obs="marked", obs_kind="light",
                                      vocab="listy"), "events": with_reads(evs, kinds, names4, i)})
     out.exhaustive = False
